@@ -946,4 +946,144 @@ theorem mapList_safe (n : Nat) (ih : AllSpec n) (ihs : SSpec n) (f l : Val) (s :
     exact Safe.pure _ hg2
   · rw [Sim.run_err] at hex; cases hex; exact res_err
 
+/-! ## `forceLazy` -/
+
+theorem bind_any_inv {α β} (m : M α) (k : α → M β) (s s' : St) (r : Except Fault β) (h : (m >>= k).run s = (r, s')) :
+    (∃ e, m.run s = (.error e, s') ∧ r = .error e) ∨ ∃ a s1, m.run s = (.ok a, s1) ∧ (k a).run s1 = (r, s') := by
+  rw [run_bind] at h
+  rcases hm : m.run s with ⟨r1, s1⟩
+  rw [hm] at h
+  cases r1 with
+  | error e => cases h; exact Or.inl ⟨e, rfl, rfl⟩
+  | ok a => exact Or.inr ⟨a, s1, rfl, h⟩
+
+theorem finish_safe (id : Nat) (lz : LazyObj) (w : Val) (t0 : St) (hg0 : NoNil t0) (hst : VMSafe.allSome lz.stack) :
+    Safe (do modify (fun s => { s with lazies := s.lazies.set id ({ lz with value := some w } : LazyObj) })
+             pure w : M Val) t0 := by
+  intro r s' h
+  simp only [run_bind, run_modify, run_pure] at h
+  cases h
+  refine res_ok _ ⟨⟨hg0.good.data, hg0.good.linear, hg0.good.addr, hg0.good.susp, ?_⟩, hg0.lin, ?_⟩
+  · intro z hz
+    rcases List.mem_or_eq_of_mem_set hz with hm | rfl
+    · exact hg0.good.lazies z hm
+    · exact hst
+  · intro z hz hv
+    rcases List.mem_or_eq_of_mem_set hz with hm | rfl
+    · exact hg0.lz z hm hv
+    · cases hv
+
+theorem force_safe (n : Nat) (ih : AllSpec n) (ihs : SSpec n) (id : Nat) (s : St) (hg : NoNil s) (hw : WF s) :
+    Safe (forceLazy (n + 1) id) s := by
+  intro r s' hex
+  unfold VM.forceLazy at hex
+  rw [run_bind, run_get] at hex
+  dsimp only at hex
+  split at hex
+  · rw [Sim.run_err] at hex; cases hex; exact res_err
+  · rename_i lz hlz
+    have hmem : lz ∈ s.lazies := List.mem_of_getElem? hlz
+    have hlzm := hw.lazies lz hmem
+    have hst : VMSafe.allSome lz.stack := hg.good.lazies lz hmem
+    cases hval : lz.value with
+    | some v0 =>
+      simp only [hval, run_pure] at hex
+      cases hex
+      exact res_ok _ hg
+    | none =>
+      simp only [hval] at hex
+      rw [run_bind] at hex
+      rcases hgn : (runGen (compile (isFnScope s) {} lz.e)).run s with ⟨r1, s1⟩
+      rw [hgn] at hex
+      have hnp1 := runGen_res _ s s1 r1 hgn
+      cases r1 with
+      | error er =>
+        cases hex
+        cases er with
+        | err => exact res_err
+        | panic => exact absurd rfl hnp1
+        | timeout => exact res_timeout
+      | ok ct =>
+        obtain ⟨code, t⟩ := ct
+        obtain ⟨hw1, he1, g1, g2, g3, g4, g5, g6, g7, g8, g9, hcode, hver⟩ := wf_runGen (isFnScope s) lz.e code t hw hlzm.1 hgn
+        have hg1 : NoNil s1 := hg.same g1 g2 g3 g6 g9
+        dsimp only at hex
+        split at hex
+        · exact finish_safe id lz .nil s1 hg1 hst r s' hex
+        · rw [run_bind, run_mkFunction] at hex
+          dsimp only at hex
+          rw [run_bind, run_capture] at hex
+          dsimp only at hex
+          rw [run_bind, run_modify] at hex
+          dsimp only at hex
+          have hgt : NoNil (thunkSt s1 (thunkObj "lazyArgForce" code lz.stack (some lz.curfunc)) lz.stack (s1.linear :: s1.suspended)) := by
+            refine ⟨⟨hg1.good.data, hst, hg1.good.addr, ?_, hg1.good.lazies⟩, hg.lz lz hmem hval, hg1.lz⟩
+            intro l hl
+            rcases List.mem_cons.mp hl with rfl | hl
+            · exact hg1.good.linear
+            · exact hg1.good.susp l hl
+          rcases bind_any_inv _ _ _ _ _ hex with ⟨e, hn, rfl⟩ | ⟨w, s4, hn, hfin⟩
+          · obtain ⟨hnp, _⟩ := thunk_safe n ihs "lazyArgForce" s1 code lz.stack (some lz.curfunc) hw1 hcode hver
+              (captureOf s1) lz.stack (s1.linear :: s1.suspended) hgt _ s' hn
+            cases e with
+            | err => exact res_err
+            | panic => exact absurd rfl hnp
+            | timeout => exact res_timeout
+          · obtain ⟨hnp, hok'⟩ := thunk_safe n ihs "lazyArgForce" s1 code lz.stack (some lz.curfunc) hw1 hcode hver
+              (captureOf s1) lz.stack (s1.linear :: s1.suspended) hgt _ s4 hn
+            obtain ⟨s3, h1, hg3, d3, l3, a3, su3, _⟩ := hok' w rfl
+            have hrs : s4 = { s3 with linear := s1.linear, suspended := s1.suspended, curfunc := s1.curfunc, pc := s1.pc } := by
+              rw [h1]; exact restoreSt_force s1 s3 d3 a3 su3
+            have hg4 : NoNil s4 := by
+              rw [hrs]
+              exact ⟨⟨hg3.good.data, hg1.good.linear, hg3.good.addr, hg1.good.susp, hg3.good.lazies⟩, hg1.lin, hg3.lz⟩
+            exact finish_safe id lz w s4 hg4 hst r s' hfin
+
+/-! ## The induction on the fuel -/
+
+theorem safe_timeout {α} (s : St) : Safe (throw Fault.timeout : M α) s := by
+  intro r s' h; rw [run_throw] at h; cases h; exact res_timeout
+
+theorem sSpec_zero : SSpec 0 where
+  exec := fun b s top rest i _ _ _ _ _ => by simp only [VM.exec]; exact safe_timeout s
+  resolved := fun s f args _ _ _ _ => by simp only [VM.callResolved]; exact safe_timeout s
+  loop := fun b st s _ _ _ _ _ _ => by
+    intro r s' h; rw [runLoop_zero] at h; cases h; exact res_timeout
+  run := fun b s top _ _ _ _ _ _ => by simp only [VM.run]; exact safe_timeout s
+  nested := fun f st s _ _ _ _ _ _ r s' h => by
+    simp only [VM.nested, run_throw] at h; cases h
+    exact ⟨(by intro h; cases h), fun v hv => (by cases hv)⟩
+  eval := fun e s _ _ _ => by simp only [VM.evalCallExpr]; exact safe_timeout s
+  prep := fun f i args s _ _ _ => by
+    cases args with
+    | nil => simp only [VM.prepareArgs]; exact safe_timeout s
+    | cons e es => simp only [VM.prepareArgs]; exact safe_timeout s
+  user := fun name k s tail _ _ _ => by simp only [VM.callUser]; exact safe_timeout s
+  builtin := fun name args s _ _ _ _ => by simp only [VM.builtin]; exact safe_timeout s
+  apply := fun f args s _ _ _ _ _ => by simp only [VM.applyFn]; exact safe_timeout s
+  mapArr := fun f r i k s _ _ _ _ => by simp only [VM.mapArr]; exact safe_timeout s
+  mapList := fun f l s _ _ _ _ _ => by simp only [VM.mapList]; exact safe_timeout s
+  force := fun id s _ _ => by simp only [VM.forceLazy]; exact safe_timeout s
+
+/-- **No host panic, no nil cell where code continues** — all thirteen functions of the mutual
+block, every fuel. -/
+theorem sSpec : ∀ n, SSpec n
+  | 0 => sSpec_zero
+  | n + 1 =>
+    have ih := allSpec' n
+    have ihs := sSpec n
+    { exec := fun b s top rest i hg hw hr hbl hf => exec_safe n ih ihs b s top rest i hg hw hr hbl hf
+      resolved := fun s f args hg hw hv ho => resolved_safe n ih ihs s f args hg hw hv ho
+      loop := fun b st s hg hw hl hbl hb hm => loop_safe n ih ihs b st s hg hw hl hbl hb hm
+      run := fun b s top hg hw hr hbl hb hm => run_safe n ih ihs b s top hg hw hr hbl hb hm
+      nested := fun f st s hg hw h2 hlt hp hpc => nested_safe n ih ihs f st s hg hw h2 hlt hp hpc
+      eval := fun e s hg hw hok => eval_safe n ih ihs e s hg hw hok
+      prep := fun f i args s hg hw hok => prep_safe n ih ihs args f i s hg hw hok
+      user := fun name k s tail hg hw hd => user_safe n ih ihs name k s tail hg hw hd
+      builtin := fun name args s hg hw hpc ha => builtin_safe n ih ihs name args s hg hw hpc ha
+      apply := fun f args s hg hw hpc hf ha => apply_safe n ih ihs f args s hg hw hpc hf ha
+      mapArr := fun f r i k s hg hw hpc hf => mapArr_safe n ih ihs f r i k s hg hw hpc hf
+      mapList := fun f l s hg hw hpc hf hl => mapList_safe n ih ihs f l s hg hw hpc hf hl
+      force := fun id s hg hw => force_safe n ih ihs id s hg hw }
+
 end ZygoVerif.RunInv
